@@ -3824,6 +3824,8 @@ fn object_history(ctx: &Ctx, fx: &Fx, thorough: bool) {
         }
         let (mut ev, mut nt, mut ns) = (0u64, 0u64, 0u64);
         let mut oc: BTreeMap<&'static str, u64> = BTreeMap::new();
+        // at most 6 reports per (object, first setting): what follows is the same fault under further second settings
+        let mut reported = 0;
         for sq in &seqs { for (hi, handles) in OH_HANDLES.iter().enumerate() {
             let Some(value) = OhObj::decode(sj.kind, &sj.bytes, sj.decode_strict) else { continue };
             ns += 1;
@@ -3841,6 +3843,8 @@ fn object_history(ctx: &Ctx, fx: &Fx, thorough: bool) {
                 *oc.entry(ob.class()).or_insert(0) += 1;
                 if pos > 0 && !fr[x].same(&fr[sq[pos - 1]]) { nt += 1 }
                 if !ob.same(&fr[x]) {
+                    reported += 1;
+                    if reported > 6 { break }
                     let w = format!("{} | {handles} | {} (step {})", sj.label, sq.iter().map(|&y| oh_show(&issuers, all[y])).collect::<Vec<_>>().join(" -> "), pos + 1);
                     if let OhObs::Panic(p) = &ob { fail("C02.no_panic", w, p.clone()) }
                     else { fail("C02.objhist.independent", w, format!("step {}: {}; a newly decoded value under that setting alone: {}", pos + 1, trunc(&ob.show(), 200), trunc(&fr[x].show(), 200))) }
